@@ -340,8 +340,9 @@ def classify(b, L, bitwidth, fa):
         info.why = "no +1 step of either comparison operand found inside the loop"
         return info
     # 4. down-counter -----------------------------------------------------------------------------------
-    if e[0] == "bin" and e[1] in ("Gt", "Ne") and show(e[3]) == "0":
-        cs = show(e[2])
+    # `while n > 0 { .. n -= 1 }`, also spelled `loop { if n == 0 { break } .. n -= 1 }`
+    if e[0] == "bin" and ((e[1] in ("Gt", "Ne") and show(e[3]) == "0") or (e[1] in ("Eq", "Ne") and show(e[2]) == "0") or (e[1] == "Eq" and show(e[3]) == "0") or (e[1] == "Lt" and show(e[2]) == "0")):
+        cs = show(e[2]) if show(e[3]) == "0" else show(e[3])
         ws = writes_in_loop(b, L, cs)
         decs = [loc for loc, node in ws if node["k"] == "assign" and show(b.rvalue_expr(node["rv"])) == "sub(%s,1)" % cs]
         if decs and len(decs) == len(ws):
